@@ -293,7 +293,7 @@ type Step struct {
 	E     int    `json:"e"`   // endpoint (1-based) for add/remove, 0 otherwise
 	Eps   []int  `json:"eps"` // refresh list
 	Err   bool   `json:"err"` // the operation returned an error
-	Ans   []int  `json:"ans"` // per probe code: endpoint returned (1-based), 0 = Select error, 99 = not an endpoint of the universe
+	Ans   []int  `json:"ans"` // per probe code: endpoint returned (1-based), 0 = Select error, 98 = Select panicked, 99 = not an endpoint of the universe
 	List  []int  `json:"list"`
 	Cycle []int  `json:"cycle"` // modw: selector.BuildStaticWeightList over List (empty when it returns nil)
 	Via   string `json:"via"`   // how the hash code reached the Message
@@ -341,16 +341,25 @@ func (r *runner) message(code uint32, k int) (selector.Message, string) {
 	return makeMessage(code, r.u.hashType(), k)
 }
 
+// selectOne calls the real Select; a panic inside it is an answer too (98), never a harness failure.
+func (r *runner) selectOne(c uint32, k int) (ans int) {
+	defer func() {
+		if recover() != nil {
+			ans = 98
+		}
+	}()
+	msg, _ := r.message(c, k)
+	ep, err := r.sel.Select(msg)
+	if err != nil {
+		return 0
+	}
+	return r.identify(ep)
+}
+
 func (r *runner) probe(st *Step) {
 	st.Ans = make([]int, len(r.u.codes))
 	for k, c := range r.u.codes {
-		msg, _ := r.message(c, k)
-		ep, err := r.sel.Select(msg)
-		if err != nil {
-			st.Ans[k] = 0
-		} else {
-			st.Ans[k] = r.identify(ep)
-		}
+		st.Ans[k] = r.selectOne(c, k)
 	}
 	st.Via = "Message.SetHash; every 3rd via current.SetClientHash"
 	st.List = append([]int{}, r.list...)
@@ -612,9 +621,26 @@ func cmdGen(args []string) error {
 		}
 		return eps
 	}
+	// a host installed through one endpoint value and addressed through another (second port): the member
+	// stays what was installed first, Remove through either value removes it
+	secondPort := func(u *Universe) {
+		last := len(u.EPs)
+		for _, v := range [][2]int{{1, last}, {last, 1}} {
+			nextH++
+			r := newRunner(u, nextH, "same-host-second-port")
+			r.add(2)
+			r.add(v[0])
+			r.add(v[1]) // same host again: no change
+			r.add(3)
+			r.remove(v[1]) // removes the stored one
+			r.add(v[1])
+			r.refresh([]int{3, v[0], 2, v[1]})
+			hists = append(hists, r.h)
+		}
+	}
 	for rep := 0; rep < reps; rep++ {
 		// 1. unweighted ketama ring, 5 hosts (+ one host on a second port)
-		mk("ketama", "5 hosts + second port of host 1", plain(distinctHosts(rng, 5), true), cfg, sample)
+		secondPort(mk("ketama", "5 hosts + second port of host 1", plain(distinctHosts(rng, 5), true), cfg, sample))
 		// 2. unweighted ring, xor variant of the point hash
 		mk("default", "4 hosts, DefaultHash", plain(distinctHosts(rng, 4), rep%2 == 1), cfg, sample)
 		// 3. weighted ketama ring: rounds = weight/4 (at least 1), weight <= 0 gives no points
@@ -622,7 +648,7 @@ func cmdGen(args []string) error {
 		weps := []EPDesc{
 			{Host: hs[0], Port: 10000, Weight: 40, WType: static},
 			{Host: hs[1], Port: 10001, Weight: int32(4 + rng.Intn(60)), WType: static},
-			{Host: hs[2], Port: 10002, Weight: int32(1 + rng.Intn(7)), WType: static},
+			{Host: hs[2], Port: 10002, Weight: int32(1 + rng.Intn(3)), WType: static}, // below 4: still one round
 			{Host: hs[3], Port: 10003, Weight: 100, WType: static},
 			{Host: hs[4], Port: 10004, Weight: 0, WType: static},
 			{Host: hs[0], Port: 10000, Weight: 4, WType: static}, // host 1 with another weight
@@ -645,7 +671,7 @@ func cmdGen(args []string) error {
 			mk("defaultw", "weighted DefaultHash", weps[:5], cw, sample)
 		}
 		// 4. mod hash
-		mk("mod", "5 hosts + second port of host 1", plain(distinctHosts(rng, 5), true), cfg, 0)
+		secondPort(mk("mod", "5 hosts + second port of host 1", plain(distinctHosts(rng, 5), true), cfg, 0))
 		hs = distinctHosts(rng, 4)
 		meps := []EPDesc{
 			{Host: hs[0], Port: 10000, Weight: int32(1 + rng.Intn(10)), WType: static},
